@@ -43,6 +43,7 @@ theorem transEvs_heap (v : Variant) (hv : v.callCopies = true) :
 theorem pullSource_heap (v : Variant) (hv : v.callCopies = true) (fuel : Nat) (h : Heap) (st : St)
     (src : Src) : (pullSource v fuel h st src).h = h := by
   cases src with
+  | none => rfl
   | direct root i =>
     simp only [pullSource]
     split
@@ -127,6 +128,36 @@ theorem flat_heap (v : Variant) (hv : v.callCopies = true) :
     | nil => exact key (pullSource v n h st src, []) (pullSource_heap v hv n h st src)
     | cons it rest => exact key (⟨h, (pull h n st it).st, src, (pull h n st it).out⟩, (pull h n st it).it :: rest) rfl
 
+theorem consume_runBody_heap (v : Variant) (hv : v.callCopies = true) :
+    ∀ (fuel : Nat),
+      (∀ (h : Heap) (st : St) (src : Src) (stack : List It) (start preEnd depth : Nat),
+        (consume v fuel h st src stack start preEnd depth).h = h) ∧
+      (∀ (h : Heap) (st : St) (stack : List It) (start : Nat), (runBody v fuel h st stack start).h = h) := by
+  intro fuel
+  induction fuel with
+  | zero => exact ⟨by intros; simp [consume], by intros; simp [runBody]⟩
+  | succ n ih =>
+    obtain ⟨ihc, ihb⟩ := ih
+    constructor
+    · intro h st src stack start preEnd depth
+      have hf := flat_heap v hv n h st src stack
+      simp only [consume]
+      repeat' split
+      all_goals first | rfl | exact hf | (simp only [ihc, ihb]; exact hf)
+    · intro h st stack start
+      have hf := flat_heap v hv n h st .none stack
+      simp only [runBody]
+      repeat' split
+      all_goals first | rfl | exact hf | (simp only [ihc, ihb]; exact hf)
+
+theorem mpull_heap (v : Variant) (hv : v.callCopies = true) (fuel : Nat) (h : Heap) (st : St) (src : Src)
+    (stack : List It) (start : Nat) : (mpull v fuel h st src stack start).h = h := by
+  have hf := flat_heap v hv fuel h st src stack
+  have hc := (consume_runBody_heap v hv fuel).1
+  simp only [mpull]
+  repeat' split
+  all_goals first | rfl | exact hf | (simp only [hc]; exact hf)
+
 theorem pipe_heap (v : Variant) (hv : v.callCopies = true) (tr : Bool) (roots : List Nat) :
     ∀ (fuel : Nat) (h : Heap) (st : St) (frames : List PFrame) (touched : List Nat),
       (pipe v tr roots fuel h st frames touched).h = h := by
@@ -138,11 +169,12 @@ theorem pipe_heap (v : Variant) (hv : v.callCopies = true) (tr : Bool) (roots : 
     cases frames with
     | nil => simp [pipe]
     | cons f outer =>
-      have hf := flat_heap v hv n h st f.src f.stack
+      have hf := mpull_heap v hv n h st f.src f.stack f.mstart
       simp only [pipe]
       split
       · exact hf
       · exact hf
+      · rw [ih]; exact hf
       · rw [ih]; exact hf
       · split
         · exact hf
